@@ -7,7 +7,7 @@ from props import c04
 
 ID = "C15"
 LEVEL = "proof"
-THEOREMS = ["C15_odd_cycle_reported", "C15_closure_exact", "C15_over_iff_unsat", "C15_seeded_total", "C15_failure_reason", "C15_success_gives_assignment", "C15_gsat_iff_doc_sat", "C15_over_iff_document_unsat", "C15_loaded_over_iff_document_unsat", "C15_design_arrays_cases", "C15_loaded_design_total", "C15_design_arrays_error", "C15_seed_total"]
+THEOREMS = ["C15_odd_cycle_reported", "C15_closure_exact", "C15_over_iff_unsat", "C15_seeded_total", "C15_failure_reason", "C15_success_gives_assignment", "C15_gsat_iff_doc_sat", "C15_over_iff_document_unsat", "C15_loaded_over_iff_document_unsat", "C15_design_arrays_cases", "C15_loaded_design_total", "C15_design_arrays_error", "C15_seed_total", "C15_struct_loaded_over_iff_document_unsat", "C15_struct_design_arrays_cases", "C15_struct_seed_iff_placed", "C15_struct_loaded_design_total"]
 TRUSTED = c04.TRUSTED
 ASSUMPTIONS = ["satisfiability oracle: parity union-find with per-class base-set intersection over the document's denotation (exact for this constraint language: equalities / complementarities / unary base sets)"]
 
